@@ -178,6 +178,10 @@ func checkC10(tier, replay string) int {
 			return
 		}
 		key := fmt.Sprintf("flags=%d", sc.Flags)
+		if rep.Err != nil && strings.Contains(*rep.Err, panicMark) {
+			ctx.Violation("C10:load-panicked:"+key, "LoadFilter panicked: "+*rep.Err, sc)
+			return
+		}
 		if rep.Err != nil && (sc.Divergent || sc.OuterENOSYS) {
 			atomic.AddInt64(&refused, 1)
 			return // refusal reported as an error: nothing to check
